@@ -87,7 +87,15 @@ func runC06(c *core.Ctx) {
 						bad = true
 					}
 				}
-				a.check(!bad && len(ds) > 0, fname(lockKeys)+" rollback key set", rb, fmt.Sprint(ds), fmt.Sprint("the rollback is given the filtered key list (keys locked by an earlier attempt would be left): ", ds))
+				// … and not more: the caller's raw input also names keys this transaction locked EARLIER (they were
+				// dropped from the request as already locked); rolling those back unlocks keys the buffer still
+				// flags as locked
+				for _, d := range ds {
+					if strings.HasPrefix(d, "param#") {
+						bad = true
+					}
+				}
+				a.check(!bad && len(ds) > 0, fname(lockKeys)+" rollback key set", rb, fmt.Sprint(ds), fmt.Sprint("the rollback is not given exactly the keys this call tried to lock (the de-duplicated, not-yet-locked keys before aggressive-locking filtering): the filtered list leaves locks behind, the caller's raw list releases locks taken by earlier statements: ", ds))
 				// for-update ts covers locks taken with conflict
 				fd := p.Prov().Desc(argOf(rb, 2))
 				okk := len(fd) == 2 && strings.Contains(strings.Join(fd, "|"), "fld(LockCtx.ForUpdateTS,") && strings.Contains(strings.Join(fd, "|"), "fld(LockCtx.MaxLockedWithConflictTS,")
@@ -289,7 +297,9 @@ func runC06(c *core.Ctx) {
 				a.viol(fname(cancel)+" rolls back current keys", hit, "cancelling aggressive locking can leave the currently locked keys locked: "+a.w(w))
 			}
 			for _, rb := range core.FindCalls(cancel, core.CallsTo(asyncRB)) {
-				fd := strings.Join(p.Prov().Desc(argOf(rb, 2)), "|")
+				pvI := p.Prov()
+				pvI.InlinePure = true // the max may be computed by a small pure helper
+				fd := strings.Join(pvI.Desc(argOf(rb, 2)), "|")
 				a.check(strings.Contains(fd, "fld(twoPhaseCommitter.forUpdateTS,") && strings.Contains(fd, "maxLockedWithConflictTS"), fname(cancel)+" rollback for-update ts", rb, "", "for-update ts is not max(forUpdateTS, maxLockedWithConflictTS): "+fd)
 			}
 		}
